@@ -97,7 +97,8 @@ def _sum_atom(d, k, extent):
     phs = [z3.Const(f"ph!{i}!{c.sort().name()}", c.sort()) for i, c in enumerate(cs)]
     kph = z3.Int("ph!k")
     templ = z3.substitute(d, *([(c, p) for c, p in zip(cs, phs)] + [(k, kph)]))
-    key = templ.sexpr()
+    # canonical form of the template over the shared placeholder constants (e.g. `0 >= x` and `x <= 0` name the same sum)
+    key = z3.simplify(templ, arith_lhs=True).sexpr()
     if key not in _SUM_BY_KEY:
         name = f"SUMF{len(_SUM_BY_KEY)}"
         f = z3.Function(name, *([c.sort() for c in cs] + [z3.IntSort(), d.sort()]))
